@@ -3,7 +3,11 @@
 // Export shim added to package bot through `go build -overlay` (see overlays/gen.sh); never part of the repository.
 package bot
 
-import pk "github.com/Tnze/go-mc/net/packet"
+import (
+	mcnet "github.com/Tnze/go-mc/net"
+	pk "github.com/Tnze/go-mc/net/packet"
+	"github.com/Tnze/go-mc/net/queue"
+)
 
 // VerifAuthDigest exposes the client-side session hash (bot/login.go: authDigest).
 func VerifAuthDigest(serverID string, sharedSecret, publicKey []byte) string {
@@ -37,3 +41,6 @@ func (q *verifSendQueue) Pull() (p pk.Packet, ok bool) {
 	return p, true
 }
 func (q *verifSendQueue) Close() {}
+
+// VerifWarpConn exposes warpConn (bot/client.go): the concurrently usable Conn with its receive and send goroutines.
+func VerifWarpConn(c *mcnet.Conn, qr, qw queue.Queue[pk.Packet]) *Conn { return warpConn(c, qr, qw) }
